@@ -35,7 +35,8 @@ Example c12_bloom_example :
                     3; 0; 0; 0; 0; 0; 0; 0;  3; 0; 0; 0; 0; 0; 0; 0;  1; 0; 0; 0; 0; 0; 0; 0] /\
   spec_decode (bf_serialize f) = Some (mkAbs 3 9001 2 [3; 1] 3).
 Proof.
-  split; [|split; vm_compute; reflexivity].
-  constructor; vm_compute; try (split; discriminate); try reflexivity.
+  intros f. split; [|split; vm_compute; reflexivity].
+  constructor; cbn [f abs_of a_nh a_seed a_nw a_words a_count bf_nh bf_seed bf_used bf_words length];
+    try (change (N.of_nat 2) with 2); try lia; try reflexivity.
   repeat constructor.
 Qed.
